@@ -16,7 +16,7 @@ use std::sync::{Arc, Mutex};
 pub const GROUPS: &[&str] = &[
     "usart_dec", "usart_enc", "usart_rt", "can_dec", "can_enc", "can_rt", "to_frames", "frag_rt", "builder", "ev_enc", "ev_rt", "ev_dec",
     "ev_cross", "rx_usart", "rx_serial", "rx_can", "rxh_usart", "rxh_serial", "rxh_can", "tx_usart", "tx_can", "tx_serial", "loop_usart",
-    "loop_serial", "loop_can", "e2e_usart", "e2e_serial", "e2e_can", "proto",
+    "loop_serial", "loop_can", "e2e_usart", "e2e_serial", "e2e_can", "proto", "usart_dec_enum", "can_dec_enum", "builder_enum",
 ];
 
 fn guard<T>(f: impl FnOnce() -> T) -> Option<T> {
@@ -1492,6 +1492,131 @@ fn exec_e2e(t: &[&str]) -> Option<String> {
     Some(format!("{} {}", status, list(&l, ",")))
 }
 
+/* ---------------------------------------------------------------- exhaustive small scopes ---- */
+
+/// the `i`-th byte string in length-then-lexicographic order: 1 + 256 + 65536 + 16777216 strings of length 0..=3
+fn enum_bytes(i: u64) -> Vec<u8> {
+    let mut i = i;
+    let mut len = 0u32;
+    loop {
+        let n = 256u64.pow(len);
+        if i < n {
+            break;
+        }
+        i -= n;
+        len += 1;
+    }
+    (0..len).rev().map(|k| (i >> (8 * k)) as u8).collect()
+}
+
+/// every combination of flags x reserved identifier bits x id nibble x dlc x address class (589824 CAN frames)
+fn enum_can(i: u64) -> bxcan::Frame {
+    const ADDR: [u32; 8] = [0, 1, 0x00ff, 0x0100, 0x5555, 0x8000, 0xfffe, 0xffff];
+    let (flags, i) = (i % 8, i / 8);
+    let (reserved, i) = (i % 64, i / 64);
+    let (nibble, i) = (i % 16, i / 16);
+    let (dlc, i) = (i % 9, i / 9);
+    let addr = ADDR[(i % 8) as usize];
+    let id = (flags as u32) << 26 | (reserved as u32 & 0x3f) << 20 | (nibble as u32) << 16 | addr;
+    let data: Vec<u8> = (0..dlc as u8).map(|k| k.wrapping_mul(37).wrapping_add(nibble as u8)).collect();
+    bxcan::Frame::new_data(bxcan::ExtendedId::new(id).unwrap(), bxcan::Data::new(&data).unwrap())
+}
+
+/// alphabet for exhaustive builder histories: frames around a packet of device 7 announcing 3 frames
+fn builder_alphabet() -> Vec<Frame> {
+    let base = |id: u16, len: u8| Frame {
+        not_error_flag: true,
+        start_frame_flag: false,
+        multi_frame_flag: true,
+        frame_id: FrameId::CurrentFrameId(id),
+        device_address: 7,
+        data_len: len,
+        data: {
+            let mut d = [0u8; 8];
+            for k in 0..len as usize {
+                d[k] = if k == 0 { id as u8 } else { (id as u8).wrapping_mul(0x10).wrapping_add(k as u8) };
+            }
+            d
+        },
+    };
+    let mut v = vec![];
+    for id in [0u16, 1, 2, 3, 4, 255, 256, 257, 258, 4095] {
+        v.push(base(id, 8));
+    }
+    v.push(base(1, 1));
+    v.push(base(2, 0));
+    v.push(base(2, 3));
+    let mut f = base(1, 8);
+    f.not_error_flag = false;
+    v.push(f);
+    let mut f = base(2, 8);
+    f.not_error_flag = false;
+    v.push(f);
+    let mut f = base(1, 8);
+    f.device_address = 8;
+    v.push(f);
+    let mut f = base(2, 8);
+    f.device_address = 0x0107;
+    v.push(f);
+    let mut f = base(1, 8);
+    f.start_frame_flag = true;
+    v.push(f);
+    let mut f = base(1, 8);
+    f.multi_frame_flag = false;
+    v.push(f);
+    let mut f = base(2, 8);
+    f.multi_frame_flag = false;
+    v.push(f);
+    let mut f = base(1, 8);
+    f.frame_id = FrameId::LastFrameId(1);
+    v.push(f);
+    let mut f = base(2, 8);
+    f.frame_id = FrameId::LastFrameId(2);
+    v.push(f);
+    let mut f = base(2, 8);
+    f.start_frame_flag = true;
+    f.frame_id = FrameId::LastFrameId(2);
+    v.push(f);
+    let mut f = base(0, 4);
+    f.start_frame_flag = true;
+    f.multi_frame_flag = false;
+    f.frame_id = FrameId::LastFrameId(0);
+    v.push(f);
+    v
+}
+
+/// the `i`-th history: start frame announcing `3` (or, in the upper half of the index space, `258`) frames, then the
+/// `i`-th sequence (length-then-lexicographic) over the alphabet
+fn enum_builder(i: u64) -> String {
+    let alpha = builder_alphabet();
+    let n = alpha.len() as u64;
+    let (announce, mut i) = (if i % 2 == 0 { 3u16 } else { 258 }, i / 2);
+    let mut len = 0u32;
+    loop {
+        let c = n.pow(len);
+        if i < c {
+            break;
+        }
+        i -= c;
+        len += 1;
+    }
+    let seq: Vec<String> = (0..len).rev().map(|k| text::frame(&alpha[((i / n.pow(k)) % n) as usize])).collect();
+    let mut f0 = alpha[0].clone_frame();
+    f0.start_frame_flag = true;
+    f0.frame_id = FrameId::LastFrameId(announce - 1);
+    f0.data[0] = (announce - 1) as u8;
+    format!("{} {}", text::frame(&f0), list(&seq, ","))
+}
+
+trait CloneFrame {
+    fn clone_frame(&self) -> Frame;
+}
+impl CloneFrame for Frame {
+    fn clone_frame(&self) -> Frame {
+        text::copy_frame(self)
+    }
+}
+
 /* ---------------------------------------------------------------- dispatch ---- */
 
 pub struct Gen {
@@ -1543,6 +1668,9 @@ impl Gen {
             "e2e_serial" => format!("e2e serial {} {}", gen_e2e(r), 1 + r.below(5)),
             "e2e_can" => format!("e2e can {}", gen_e2e(r)),
             "proto" => format!("proto {}", crate::proto::gen(r)),
+            "usart_dec_enum" => format!("usart_dec {}", text::hex(&enum_bytes(i))),
+            "can_dec_enum" => format!("can_dec {}", text::can(&enum_can(i))),
+            "builder_enum" => format!("builder {}", enum_builder(i)),
             _ => return None,
         })
     }
